@@ -18,6 +18,13 @@ PROPS = {
         cfgs_quick=["std-debug", "std-release", "nosimd-debug"],
         cfgs_thorough=ALL4,
     ),
+    "C02": dict(
+        theorems=["new_at_zero", "history_refines", "history_from_new", "profile_independent",
+                  "output_depends_on_position_only", "apply_bytewise", "rechunk", "apply_twice_restores"],
+        gen=g("C02"),
+        cfgs_quick=["std-debug", "std-release", "nosimd-debug"],
+        cfgs_thorough=ALL4,
+    ),
     "C14": dict(
         theorems=["refill4_eq", "refill_counter", "refill4_counter", "refill_block"],
         gen=g("C14"),
